@@ -1,6 +1,6 @@
 (* C42 — Blobstores provide a correct conditional manifest update and byte ranges.  Property theorems only. *)
 From Coq Require Import NArith ZArith List Bool.
-From Dolt Require Import Base.Str Gen.C42Consts C42.Model C42.Spec C42.Corr C42.Proofs.
+From Dolt Require Import Base.Str Gen.C42Consts C42.Model C42.Spec C42.NbsModel C42.Corr C42.Proofs.
 Import ListNotations.
 
 Theorem C42_cap_is_cas :
@@ -128,10 +128,43 @@ Print Assumptions C42_concat_missing_source_is_error_refuted.
 
 Theorem C42_oracle_on_model :
   forall i : input,
-  fresh_trace [] (sched_trace (fst i) empty_store (snd i)) = true ->
+  match i with
+  | IBlob b sch => fresh_trace [] (sched_trace b empty_store sch) = true
+  | INbs n _ ops => forallb (fun io => Nat.ltb (fst io) n) ops = true
+  end ->
   oracle i (model_obs i) = true.
 Proof. exact oracle_on_model. Qed.
 Print Assumptions C42_oracle_on_model.
+
+Theorem C42_read_then_cap_is_atomic :
+  forall b s1 (sigma : schedule) d f,
+  let ver := cur_ver s1 manifest_key in
+  versions_distinct s1 (trace b s1 (map snd sigma ++ [OCap ver d f])) ->
+  snd (step b (final b s1 (map snd sigma)) (OCap ver d f)) = RVer f ->
+  man_writes (sched_trace b s1 sigma) = []
+  /\ final b s1 (map snd sigma) manifest_key = s1 manifest_key.
+Proof. exact read_then_cap_is_atomic. Qed.
+Print Assumptions C42_read_then_cap_is_atomic.
+
+Theorem C42_read_then_cap_is_atomic_without_versions_distinct_refuted :
+  exists b s1 (sigma : schedule) d f,
+    snd (step b (final b s1 (map snd sigma)) (OCap (cur_ver s1 manifest_key) d f)) = RVer f
+    /\ final b s1 (map snd sigma) manifest_key <> s1 manifest_key.
+Proof. exact read_then_cap_is_atomic_without_versions_distinct_refuted. Qed.
+Print Assumptions C42_read_then_cap_is_atomic_without_versions_distinct_refuted.
+
+Theorem C42_bs_update_refines_local :
+  forall b d s last new fresh,
+  local_rd d = bs_rd s ->
+  local_rd (fst (local_upd d last new fresh)) = bs_rd (fst (bs_upd b s last new fresh))
+  /\ snd (local_upd d last new fresh) = snd (bs_upd b s last new fresh).
+Proof. exact bs_update_refines_local. Qed.
+Print Assumptions C42_bs_update_refines_local.
+
+Theorem C42_bs_store_same_semantics :
+  forall b n (sch : list (nat * nop)), nrun_bs b n sch = nrun_local n sch.
+Proof. exact bs_store_same_semantics. Qed.
+Print Assumptions C42_bs_store_same_semantics.
 
 Theorem C42_constants_pinned :
   c42_manifest_key = [109; 97; 110; 105; 102; 101; 115; 116]%N /\ c42_compose_batch = 32%N.
